@@ -184,6 +184,16 @@ impl GrammarBuilder {
         }
     }
 
+    /// A single rule with `len` symbols on its right-hand side is about to be built.
+    pub fn check_rule_len(&self, len: usize) -> Result<()> {
+        ensure!(
+            len <= self.limits.max_grammar_size,
+            "grammar size (number of symbols) too big (limit for this grammar: {})",
+            self.limits.max_grammar_size,
+        );
+        Ok(())
+    }
+
     pub fn check_limits(&self) -> Result<()> {
         ensure!(
             self.regex.spec.cost() <= self.limits.initial_lexer_fuel,
